@@ -1088,3 +1088,70 @@ Lemma cancel_waits_when_only_deaf_awaited :
   provide [mkn (Err Timeout) 3600000 true] [] [0%nat] [] (Some 1000) = RCtx /\
   finish_time [mkn (Err Timeout) 3600000 true] [] [0%nat] [] (Some 1000) = Some 3600000.
 Proof. vm_compute. auto. Qed.
+
+(* ---- scoping ---- *)
+
+Lemma map_get_seq l : map (get l) (seq 0 (length l)) = l.
+Proof.
+  induction l as [|n r IH]; simpl; [reflexivity|]. f_equal.
+  rewrite <- seq_shift, map_map. exact IH.
+Qed.
+
+Lemma pickP_seq prim fb : map (pick prim fb) (map P (seq 0 (length prim))) = prim.
+Proof. rewrite map_map. rewrite <- (map_get_seq prim) at 2. apply map_ext. reflexivity. Qed.
+
+Lemma pickF_seq prim fb : map (pick prim fb) (map F (seq 0 (length fb))) = fb.
+Proof. rewrite map_map. rewrite <- (map_get_seq fb) at 2. apply map_ext. reflexivity. Qed.
+
+(* ClientForAddress("") and ClientForAddress(unknown address) are the multi client itself: the same
+   primaries and the same fallbacks -- whatever clients have been created so far. *)
+Theorem scope_none_identity prim fb initP initF a :
+  a = ANone \/ a = AUnknown ->
+  scoped_nodes prim fb (scope (length prim) (length fb) initP initF a) = (prim, fb).
+Proof.
+  intros [H|H]; subst; unfold scope, unscoped, scoped_nodes; simpl; rewrite pickP_seq, pickF_seq; reflexivity.
+Qed.
+
+(* A configured address scopes to that node alone -- all fallbacks kept for a primary, none for a
+   fallback -- but only once the node's client exists; before that the multi client is returned. *)
+Theorem scope_address prim fb initP initF :
+  (forall i, (i < length prim)%nat -> nth i initP false = true ->
+     scoped_nodes prim fb (scope (length prim) (length fb) initP initF (AP i)) = ([get prim i], fb)) /\
+  (forall j, (j < length fb)%nat -> nth j initF false = true ->
+     scoped_nodes prim fb (scope (length prim) (length fb) initP initF (AF j)) = ([get fb j], [])) /\
+  (forall i, nth i initP false = false ->
+     scoped_nodes prim fb (scope (length prim) (length fb) initP initF (AP i)) = (prim, fb)) /\
+  (forall j, nth j initF false = false ->
+     scoped_nodes prim fb (scope (length prim) (length fb) initP initF (AF j)) = (prim, fb)).
+Proof.
+  repeat split; intros k; intros; unfold scope, unscoped, scoped_nodes.
+  - apply Nat.ltb_lt in H. rewrite H, H0. simpl. rewrite pickF_seq. reflexivity.
+  - apply Nat.ltb_lt in H. rewrite H, H0. reflexivity.
+  - rewrite H, andb_false_r. simpl. rewrite pickP_seq, pickF_seq. reflexivity.
+  - rewrite H, andb_false_r. simpl. rewrite pickP_seq, pickF_seq. reflexivity.
+Qed.
+
+(* Hence everything proved about provide holds for calls through the scoped client with its node
+   lists; in particular for "" : the call succeeds iff some configured primary succeeds. *)
+Theorem unscoped_succeeds_iff prim fb initP initF pord ford :
+  order_ok prim pord = true ->
+  let ns := scoped_nodes prim fb (scope (length prim) (length fb) initP initF ANone) in
+  ((exists i a, provide (fst ns) (snd ns) pord ford None = ROk (P i) a) <-> (exists i a, out (get prim i) = Success a)).
+Proof.
+  intros Hok. rewrite (scope_none_identity prim fb initP initF ANone (or_introl eq_refl)). simpl.
+  apply succeeds_iff_some_primary_succeeds. exact Hok.
+Qed.
+
+(* a fresh client, first primary down and not yet created, second primary healthy, called through
+   ClientForAddress(""): accepted; what a client that scopes "" to the first uncreated node shows
+   (only P0 called, its error returned) is rejected by the monitor *)
+Definition ex_scoped : scase :=
+  mks ANone [false; false] []
+      (mkc Plain [mkn (Err Other) 1 false; mkn (Success 101) 2 false] [] [0; 1]%nat [] None
+           (ROk (P 1) 101) (Some 2) [Done 1; Done 2] []).
+Definition ex_scoped_bad : scase :=
+  mks ANone [false; false] []
+      (mkc Plain [mkn (Err Other) 1 false; mkn (Success 101) 2 false] [] [0; 1]%nat [] None
+           (RErr (P 0) Other) (Some 1) [Done 1; NotCalled] []).
+Lemma ex_scoped_checked : check_scoped ex_scoped = 0%nat /\ check_scoped ex_scoped_bad = 1%nat.
+Proof. vm_compute. auto. Qed.
